@@ -1,9 +1,1353 @@
-//! stub — not built yet
+//! C19 — "DNS answers are only taken from matching responses; queries terminate".
+//!
+//! Explicit-state BFS (core::bfs). A state is a choice history replayed on a fresh REAL
+//! `Interface` (Medium::Ip, IPv4 + an IPv6 address) with one `dns::Socket`, 1..=DNS_MAX_SERVER_COUNT
+//! configured servers and one or two concurrent queries. The explorer plays the servers, the
+//! network (loss = not answering) and the clock (`Tick` = advance exactly to `Interface::poll_at`).
+//! Responses are built from the query AS SEEN ON THE WIRE (own parser in dns/msg.rs) and deviate
+//! from a good response in the dimensions of the statement (see `alphabet`).
+//!
+//! Oracle (demands no more than the statement):
+//!  matching    - get_query_result -> Ok(addrs) only directly after delivery of a response that
+//!                came from port 53 of a configured server or from port 5353 (any address: the
+//!                statement says "or from the mDNS port", and `dns::Socket::accepts` matches mDNS
+//!                responses by port only), to the query's source port, with the query's txid, with a
+//!                question repeating a (name, type) that the query put on the wire (LENIENT: smoltcp
+//!                re-asks with the CNAME target after a half-processed CNAME response, a response
+//!                repeating THAT retransmitted question is taken as "repeating its question"; only a
+//!                question that was never on the wire for this query is a violation); every returned
+//!                address is the rdata of an A/AAAA record of that response whose owner is on the
+//!                CNAME chain started at the queried name (chain edges may come from this or from
+//!                earlier matching responses, in any order: lenient). Record family vs. query type
+//!                is not demanded by the statement (AAAA records are returned for A queries): counted
+//!                as an observation only. Failures (NXDOMAIN etc.) are not constrained by the
+//!                statement's first sentence and are only counted.
+//!  termination - while a query is pending `poll_at` is Some; polling exactly at `poll_at` every
+//!                query reaches Ok/Failed within servers x (10 s + 10 s max back-off) + 1 s of
+//!                simulated time; every poll returns (device-call budget + wall-clock watchdog) and
+//!                nothing panics.
+//!  timing      - per query on the wire: gaps between transmissions to one server never shrink
+//!                (back-off) and the next server is first addressed >= 10 s after the previous one.
+
+pub mod msg;
+pub mod watch;
+
 use crate::core::*;
-pub fn run(_tier: Tier) -> i32 {
-    eprintln!("harness not built yet");
-    2
+use crate::sim::{hex, SimDevice, SimRx, SimTx};
+use msg::*;
+use serde_json::{json, Value};
+use smoltcp::config::{DNS_MAX_NAME_SIZE, DNS_MAX_RESULT_COUNT, DNS_MAX_SERVER_COUNT};
+use smoltcp::iface::{Config, Interface, SocketHandle, SocketSet};
+use smoltcp::phy::{Device, DeviceCapabilities, Medium};
+use smoltcp::socket::dns::{self, GetQueryResultError, QueryHandle};
+use smoltcp::time::Instant;
+use smoltcp::wire::{DnsQueryType, HardwareAddress, IpAddress, IpCidr};
+use std::collections::{BTreeMap, BTreeSet, HashMap};
+use std::panic::{catch_unwind, AssertUnwindSafe};
+use std::sync::{Arc, Mutex, OnceLock};
+
+const SEC: i64 = 1_000_000;
+/// dns.rs: RETRANSMIT_TIMEOUT (per server) and MAX_RETRANSMIT_DELAY; the statement names the 10 s.
+const PER_SERVER_S: i64 = 10;
+const MAX_BACKOFF_S: i64 = 10;
+const SLACK_S: i64 = 1;
+const IFACE_IP: [u8; 4] = [10, 0, 0, 1];
+const OTHER_IP: [u8; 4] = [10, 0, 0, 99];
+const WATCHDOG_MSG: &str = "C19-watchdog: device call budget exceeded in one poll";
+const DEV_BUDGET: u64 = 4000;
+
+// ---------------------------------------------------------------------------------------
+// device with a call budget (a poll that keeps calling the device forever is a loop)
+// ---------------------------------------------------------------------------------------
+
+struct CountDev {
+    inner: SimDevice,
+    calls: u64,
 }
-pub fn replay(_art: &serde_json::Value) -> i32 {
-    2
+impl CountDev {
+    fn bump(&mut self) {
+        self.calls += 1;
+        if self.calls > DEV_BUDGET {
+            panic!("{}", WATCHDOG_MSG);
+        }
+    }
+}
+impl Device for CountDev {
+    type RxToken<'a> = SimRx;
+    type TxToken<'a> = SimTx<'a>;
+    fn capabilities(&self) -> DeviceCapabilities {
+        self.inner.capabilities()
+    }
+    fn receive(&mut self, ts: Instant) -> Option<(SimRx, SimTx<'_>)> {
+        self.bump();
+        self.inner.receive(ts)
+    }
+    fn transmit(&mut self, ts: Instant) -> Option<SimTx<'_>> {
+        self.bump();
+        self.inner.transmit(ts)
+    }
+}
+
+// ---------------------------------------------------------------------------------------
+// configuration
+// ---------------------------------------------------------------------------------------
+
+pub struct CfgInner {
+    label: String,
+    servers: Vec<[u8; 4]>,
+    /// (name, qtype)
+    queries: Vec<(String, u16)>,
+    names: Vec<NameSet>,
+    mdns: bool,
+    thorough: bool,
+    alphabet: Vec<Vec<RSpec>>,
+    groups: BTreeMap<String, usize>,
+    dbg: Arc<str>,
+}
+#[derive(Clone)]
+pub struct DnsCfg(Arc<CfgInner>);
+impl std::fmt::Debug for DnsCfg {
+    fn fmt(&self, f: &mut std::fmt::Formatter<'_>) -> std::fmt::Result {
+        f.write_str(&self.0.dbg)
+    }
+}
+
+fn make_cfg(label: &str, n_servers: usize, queries: &[(&str, u16)], thorough: bool) -> DnsCfg {
+    let servers: Vec<[u8; 4]> = (0..n_servers).map(|i| [10, 0, 0, 53 + i as u8]).collect();
+    let mdns = queries.iter().any(|(n, _)| n.ends_with(".local"));
+    let mut names = vec![];
+    for (i, (n, _)) in queries.iter().enumerate() {
+        let q = name_from_str(n);
+        let suffix = q.last().cloned().unwrap_or_default();
+        let mk = |l: &str| -> Name { vec![l.as_bytes().to_vec(), suffix.clone()] };
+        let mut o = mk("zz");
+        if queries.len() == 2 {
+            let other = name_from_str(queries[1 - i].0);
+            if !name_eq(&other, &q) {
+                o = other;
+            }
+        }
+        let mut long: Name = (0..4).map(|k| vec![b'k' + k as u8; 63]).collect();
+        long.push(suffix.clone());
+        names.push(NameSet { q, o, t: mk("t"), u: mk("u"), v: mk("v"), long });
+    }
+    let mut inner = CfgInner {
+        label: label.to_string(),
+        servers,
+        queries: queries.iter().map(|(n, t)| (n.to_string(), *t)).collect(),
+        names,
+        mdns,
+        thorough,
+        alphabet: vec![],
+        groups: BTreeMap::new(),
+        dbg: Arc::from(""),
+    };
+    for qi in 0..queries.len() {
+        let (a, g) = alphabet(&inner, qi);
+        inner.alphabet.push(a);
+        if qi == 0 {
+            inner.groups = g;
+        }
+    }
+    inner.dbg = Arc::from(format!(
+        "DnsCfg {{ label: {:?}, servers: {}, queries: {:?}, alphabet: {:?}, thorough: {}, limits(srv,res,name): ({},{},{}) }}",
+        inner.label,
+        inner.servers.len(),
+        inner.queries,
+        inner.alphabet.iter().map(|a| a.len()).collect::<Vec<_>>(),
+        thorough,
+        DNS_MAX_SERVER_COUNT,
+        DNS_MAX_RESULT_COUNT,
+        DNS_MAX_NAME_SIZE
+    ));
+    DnsCfg(Arc::new(inner))
+}
+
+fn base_spec(ci: &CfgInner) -> RSpec {
+    RSpec {
+        src: if ci.mdns { Src::Other } else { Src::Srv(0) },
+        sport: if ci.mdns { SPort::Mdns5353 } else { SPort::Dns53 },
+        dport: Sel::Own,
+        txid: Sel::Own,
+        hdr: Hdr::Ok,
+        q: QSec::Name(Nm::Q),
+        ans: Ans::AFor(Nm::Q),
+        enc: Enc::Back,
+        cut: None,
+    }
+}
+
+/// The response alphabet for query `qi` (static per configuration: lengths do not depend on
+/// txid/port). Returns the specs and the size of each group for the evidence.
+fn alphabet(ci: &CfgInner, qi: usize) -> (Vec<RSpec>, BTreeMap<String, usize>) {
+    let base = base_spec(ci);
+    let mut v: Vec<RSpec> = vec![];
+    let mut seen: BTreeSet<RSpec> = BTreeSet::new();
+    let mut groups: BTreeMap<String, usize> = BTreeMap::new();
+    let mut add = |g: &str, s: RSpec, v: &mut Vec<RSpec>| {
+        if seen.insert(s) {
+            v.push(s);
+            *groups.entry(g.to_string()).or_insert(0) += 1;
+        }
+    };
+    let qtype = ci.queries[qi].1;
+    let len_of = |s: &RSpec| build_payload(&ci.names[qi], qtype, s, 0, DNS_MAX_RESULT_COUNT).len();
+
+    // G1: matching dimensions (source address x source port x destination port x txid x question)
+    let mut srcs: Vec<Src> = (0..ci.servers.len()).map(|i| Src::Srv(i as u8)).collect();
+    srcs.push(Src::Other);
+    let sports = [SPort::Dns53, SPort::Mdns5353, SPort::P1053];
+    let sels = [Sel::Own, Sel::Other];
+    let qs = [QSec::Name(Nm::Q), QSec::Name(Nm::O), QSec::OtherType, QSec::None];
+    add("g0_good", base, &mut v);
+    for &src in &srcs {
+        for &sport in &sports {
+            for &dport in &sels {
+                for &txid in &sels {
+                    for &q in &qs {
+                        let s = RSpec { src, sport, dport, txid, q, ..base };
+                        let dev = (src != base.src) as u32
+                            + (sport != base.sport) as u32
+                            + (dport != base.dport) as u32
+                            + (txid != base.txid) as u32
+                            + (q != base.q) as u32;
+                        if ci.thorough || dev <= 2 {
+                            add("g1_match_dims", s, &mut v);
+                        }
+                    }
+                }
+            }
+        }
+    }
+    // G2: answer sections, compressed and uncompressed
+    let all_ans = [
+        Ans::AFor(Nm::Q),
+        Ans::AFor(Nm::V),
+        Ans::OtherThenName,
+        Ans::Cname1In,
+        Ans::Cname1Out,
+        Ans::Cname2In,
+        Ans::Cname2Out,
+        Ans::Cname2Mixed,
+        Ans::CnameDangling,
+        Ans::CnameUnrelated,
+        Ans::AThenCname,
+        Ans::ManyA,
+        Ans::WrongFamily,
+        Ans::Empty,
+        Ans::CnameTooLong,
+    ];
+    for &ans in &all_ans {
+        for enc in [Enc::Back, Enc::Plain] {
+            add("g2_answers", RSpec { ans, enc, ..base }, &mut v);
+        }
+    }
+    // G3: header deviations
+    for hdr in [Hdr::NxDomain, Hdr::ServFail, Hdr::Tc, Hdr::NotResponse, Hdr::OpStatus] {
+        add("g3_header", RSpec { hdr, ..base }, &mut v);
+    }
+    add("g3_header", RSpec { hdr: Hdr::ServFail, ans: Ans::Empty, ..base }, &mut v);
+    add("g3_header", RSpec { hdr: Hdr::NxDomain, q: QSec::Name(Nm::O), ..base }, &mut v);
+    add("g3_header", RSpec { hdr: Hdr::NxDomain, q: QSec::None, ..base }, &mut v);
+    add("g3_header", RSpec { hdr: Hdr::NxDomain, txid: Sel::Other, ..base }, &mut v);
+    add("g3_header", RSpec { hdr: Hdr::NxDomain, dport: Sel::Other, ..base }, &mut v);
+    add("g3_header", RSpec { q: QSec::Two, ..base }, &mut v);
+    // G4: forward / self / loop pointers
+    for enc in [Enc::FwdQ, Enc::SelfQ, Enc::SelfOwner, Enc::Loop2] {
+        add("g4_pointers", RSpec { enc, ..base }, &mut v);
+        add("g4_pointers", RSpec { enc, ans: Ans::Cname1In, ..base }, &mut v);
+    }
+    add("g4_pointers", RSpec { enc: Enc::SelfRdata, ans: Ans::Cname1In, ..base }, &mut v);
+    add("g4_pointers", RSpec { enc: Enc::SelfRdata, ans: Ans::CnameDangling, ..base }, &mut v);
+    // G5: every truncation of two good responses
+    for ans in [Ans::AFor(Nm::Q), Ans::Cname1In] {
+        let s = RSpec { ans, ..base };
+        for cut in 0..len_of(&s) {
+            add("g5_truncations", RSpec { cut: Some(cut as u16), ..s }, &mut v);
+        }
+    }
+    // G6: responses whose question is a CNAME target (never asked unless smoltcp re-asks)
+    for ans in [Ans::AFor(Nm::T), Ans::ChainFromT, Ans::AFor(Nm::Q), Ans::AFor(Nm::U)] {
+        add("g6_question_is_cname_target", RSpec { q: QSec::Name(Nm::T), ans, ..base }, &mut v);
+    }
+    add("g6_question_is_cname_target", RSpec { q: QSec::Name(Nm::U), ans: Ans::AFor(Nm::U), ..base }, &mut v);
+    add(
+        "g6_question_is_cname_target",
+        RSpec { q: QSec::Name(Nm::T), ans: Ans::AFor(Nm::T), sport: SPort::Mdns5353, src: Src::Other, ..base },
+        &mut v,
+    );
+    // G7: a pointer at a name position to every offset of a small response
+    for (ans, poss) in [
+        (Ans::Cname1In, &[Pos::QName, Pos::Owner0, Pos::Rdata0, Pos::Owner1][..]),
+        (Ans::AFor(Nm::Q), &[Pos::QName, Pos::Owner0][..]),
+    ] {
+        let s = RSpec { ans, ..base };
+        let len = len_of(&s) as u16;
+        for &p in poss {
+            let offs: Vec<u16> = if ci.thorough {
+                (0..=len).chain([0x3fff]).collect()
+            } else {
+                // header start, question name, its 2nd label, the answer area, last octet, one past
+                // the end, maximum
+                let mut o = vec![0, 2, 12, 12 + 1 + ci.names[qi].q[0].len() as u16, len / 2, len - 1, len, 0x3fff];
+                if ans != Ans::Cname1In {
+                    o.truncate(4);
+                }
+                o
+            };
+            for off in offs {
+                add("g7_pointer_to_every_offset", RSpec { enc: Enc::PtrAt(p, off), ..s }, &mut v);
+            }
+        }
+    }
+    (v, groups)
+}
+
+/// (configuration, BFS depth). Quick: reduced alphabet, depth 4. Thorough: the full alphabet
+/// (full product of the matching dimensions, a pointer to EVERY offset) to depth 4 (3 for two
+/// queries) and the reduced alphabet to fixpoint or depth 24 (5 for two queries) - the full alphabet at depth 6
+/// does not fit in memory (every distinct rewritten query name multiplies the state count).
+fn configs(tier: Tier) -> Vec<(DnsCfg, usize)> {
+    let ns = DNS_MAX_SERVER_COUNT.min(2);
+    let a = ("ab.c", T_A);
+    let mut v = vec![];
+    if tier == Tier::Quick {
+        v.push((make_cfg("1q-A/reduced", ns, &[a], false), 4));
+        v.push((make_cfg("1q-AAAA/reduced", ns, &[("ab.c", T_AAAA)], false), 4));
+        v.push((make_cfg("2q-A+A/reduced", ns, &[a, ("de.c", T_A)], false), 4));
+        v.push((make_cfg("1q-mdns-A/reduced", ns, &[("ab.local", T_A)], false), 4));
+        if ns > 1 {
+            // also the single-server case under the `small` build
+            v.push((make_cfg("1q-A-1srv/reduced", 1, &[a], false), 4));
+        }
+    } else {
+        v.push((make_cfg("1q-A/full", ns, &[a], true), 4));
+        v.push((make_cfg("1q-AAAA/full", ns, &[("ab.c", T_AAAA)], true), 4));
+        v.push((make_cfg("2q-A+A/full", ns, &[a, ("de.c", T_A)], true), 3));
+        v.push((make_cfg("2q-A+AAAA-same-name/full", ns, &[a, ("ab.c", T_AAAA)], true), 3));
+        v.push((make_cfg("1q-mdns-A/full", ns, &[("ab.local", T_A)], true), 4));
+        v.push((make_cfg("1q-A/reduced", ns, &[a], false), 24));
+        v.push((make_cfg("1q-mdns-A/reduced", ns, &[("ab.local", T_A)], false), 24));
+        v.push((make_cfg("2q-A+A/reduced", ns, &[a, ("de.c", T_A)], false), 5));
+        if ns > 1 {
+            v.push((make_cfg("1q-A-1srv/full", 1, &[a], true), 4));
+            v.push((make_cfg("1q-A-1srv/reduced", 1, &[a], false), 24));
+        }
+    }
+    v
+}
+
+// ---------------------------------------------------------------------------------------
+// harness
+// ---------------------------------------------------------------------------------------
+
+#[derive(Clone, Copy, Debug, PartialEq, Eq, Hash)]
+pub enum Ev {
+    /// advance the clock to Interface::poll_at and poll
+    Tick,
+    /// no more responses: tick until every query has a result (terminal)
+    RunOut,
+    /// deliver a response built from query n's data as seen on the wire
+    Resp(u8, RSpec),
+}
+
+#[derive(Clone, Debug, PartialEq, Eq)]
+enum Status {
+    Pending,
+    Ok(Vec<String>),
+    Failed,
+}
+
+struct QModel {
+    orig: Name,
+    qtype: u16,
+    handle: QueryHandle,
+    status: Status,
+    started: i64,
+    deadline: i64,
+    port: u16,
+    /// distinct (txid, question) seen on the wire for this query
+    wire: Vec<(u16, Option<(Name, u16)>)>,
+    /// CNAME edges learnt from matching responses (lower-cased)
+    edges: BTreeSet<(Name, Name)>,
+    // timing model
+    cur_dst: Vec<u8>,
+    cur_dst_first: i64,
+    last_tx: i64,
+    last_gap: i64,
+    /// evidence only (not part of the fingerprint)
+    txlog: Vec<(i64, String)>,
+}
+
+pub struct Msg {
+    src: [u8; 4],
+    sport: u16,
+    dport: u16,
+    payload: Vec<u8>,
+}
+
+pub struct DnsH {
+    cfg: DnsCfg,
+    dev: CountDev,
+    iface: Interface,
+    sockets: SocketSet<'static>,
+    h: SocketHandle,
+    now: i64,
+    next_poll: Option<i64>,
+    qs: Vec<QModel>,
+    evs: Vec<Ev>,
+    key: u128,
+    dead: bool,
+    /// evidence: what the last applied event did
+    last_class: u8,
+    notes: Vec<String>,
+}
+
+// transition classes (evidence)
+const C_TICK: u8 = 0;
+const C_RUNOUT: u8 = 1;
+const C_RESP_NOT_FOR_SOCKET: u8 = 2;
+const C_RESP_NO_VERDICT: u8 = 3;
+const C_RESP_COMPLETED: u8 = 4;
+const C_RESP_FAILED: u8 = 5;
+const C_DEAD: u8 = 6;
+const CLASS_NAMES: [&str; 7] = [
+    "tick",
+    "run_out",
+    "response_refused_by_accepts(icmp_unreachable)",
+    "response_processed_query_still_pending",
+    "response_completed_a_query",
+    "response_failed_a_query",
+    "panic_or_watchdog",
+];
+
+struct Shards<V> {
+    s: Vec<Mutex<HashMap<u128, V>>>,
+}
+impl<V: Clone> Shards<V> {
+    fn new() -> Self {
+        Shards { s: (0..64).map(|_| Mutex::new(HashMap::new())).collect() }
+    }
+    fn put(&self, k: u128, v: V) {
+        self.s[(k as usize) & 63].lock().unwrap().entry(k).or_insert(v);
+    }
+    fn drain(&self) -> Vec<V> {
+        let mut out = vec![];
+        for m in &self.s {
+            out.extend(m.lock().unwrap().drain().map(|(_, v)| v));
+        }
+        out
+    }
+}
+struct Globals {
+    classes: Shards<u8>,
+    outcomes: Shards<String>,
+    /// observation name -> history key set (distinct transitions)
+    obs: Mutex<BTreeMap<String, BTreeSet<u128>>>,
+    obs_sample: Mutex<BTreeMap<String, ((usize, u128), String)>>,
+    mach: Mutex<Vec<String>>,
+}
+fn globals() -> &'static Globals {
+    static G: OnceLock<Globals> = OnceLock::new();
+    G.get_or_init(|| Globals {
+        classes: Shards::new(),
+        outcomes: Shards::new(),
+        obs: Mutex::new(BTreeMap::new()),
+        obs_sample: Mutex::new(BTreeMap::new()),
+        mach: Mutex::new(vec![]),
+    })
+}
+
+fn qtype_of(t: u16) -> DnsQueryType {
+    if t == T_AAAA {
+        DnsQueryType::Aaaa
+    } else {
+        DnsQueryType::A
+    }
+}
+
+fn ip_bytes(a: &IpAddress) -> Vec<u8> {
+    match a {
+        IpAddress::Ipv4(x) => x.octets().to_vec(),
+        IpAddress::Ipv6(x) => x.octets().to_vec(),
+    }
+}
+
+impl DnsH {
+    fn ci(&self) -> &CfgInner {
+        &self.cfg.0
+    }
+
+    fn observe(&self, what: &str, sample: impl FnOnce() -> String) {
+        let g = globals();
+        let mut o = g.obs.lock().unwrap();
+        o.entry(what.to_string()).or_default().insert(self.key);
+        // deterministic sample: the one with the smallest (history length, history key)
+        let rank = (self.evs.len(), self.key);
+        let mut smp = g.obs_sample.lock().unwrap();
+        match smp.get(what) {
+            Some((r, _)) if *r <= rank => {}
+            _ => {
+                smp.insert(what.to_string(), (rank, sample()));
+            }
+        }
+    }
+
+    /// The response the spec denotes in the current state.
+    pub fn build(&self, qi: usize, spec: &RSpec) -> Msg {
+        let ci = self.ci();
+        let q = &self.qs[qi];
+        let own_txid = q.wire.first().map(|w| w.0).unwrap_or(0);
+        let (oport, otxid) = if self.qs.len() == 2 {
+            let o = &self.qs[1 - qi];
+            (o.port, o.wire.first().map(|w| w.0).unwrap_or(0))
+        } else {
+            (if q.port == 65535 { q.port - 1 } else { q.port + 1 }, own_txid.wrapping_add(1))
+        };
+        let txid = if spec.txid == Sel::Own { own_txid } else { otxid };
+        let dport = if spec.dport == Sel::Own { q.port } else { oport };
+        let src = match spec.src {
+            Src::Srv(i) => ci.servers[i as usize],
+            Src::Other => OTHER_IP,
+        };
+        let sport = match spec.sport {
+            SPort::Dns53 => 53,
+            SPort::Mdns5353 => 5353,
+            SPort::P1053 => 1053,
+        };
+        Msg { src, sport, dport, payload: build_payload(&ci.names[qi], q.qtype, spec, txid, DNS_MAX_RESULT_COUNT) }
+    }
+
+    fn fail(&mut self, out: &mut Vec<Viol>, sig: &str, detail: String) {
+        out.push(Viol::new(format!("C19/{}", sig), detail));
+    }
+
+    /// One `Interface::poll` under panic capture and device-call budget.
+    fn poll_once(&mut self, out: &mut Vec<Viol>, ctx: &str) -> Option<Vec<(i64, Vec<u8>)>> {
+        self.dev.calls = 0;
+        let now = Instant::from_micros(self.now);
+        let (iface, dev, sockets) = (&mut self.iface, &mut self.dev, &mut self.sockets);
+        let r = catch_unwind(AssertUnwindSafe(|| {
+            iface.poll(now, dev, sockets);
+        }));
+        match r {
+            Ok(()) => Some(self.dev.inner.take_tx()),
+            Err(e) => {
+                let m = panic_msg(e);
+                self.dead = true;
+                if m.contains("C19-watchdog") {
+                    self.fail(out, "termination/poll-spins-on-device", format!("one Interface::poll made more than {} device calls ({})", DEV_BUDGET, ctx));
+                } else {
+                    let site = panic_site();
+                    self.fail(out, &format!("panic/{}", site), format!("panic in Interface::poll: {} at {} ({})", m, last_panic_loc(), ctx));
+                }
+                None
+            }
+        }
+    }
+
+    /// Poll to quiescence at the current time, feed the wire model. Returns (#dns queries seen,
+    /// #icmp frames seen) or None if dead.
+    fn settle(&mut self, out: &mut Vec<Viol>, ctx: &str) -> Option<(usize, usize)> {
+        let mut nq = 0;
+        let mut nicmp = 0;
+        let mut round = 0;
+        loop {
+            let tx = self.poll_once(out, ctx)?;
+            if tx.is_empty() && self.dev.inner.rx.is_empty() {
+                break;
+            }
+            for (ts, f) in tx {
+                match parse_tx(&f) {
+                    TxFrame::Icmp => nicmp += 1,
+                    TxFrame::Other => globals().mach.lock().unwrap().push(format!("unexpected frame on the wire: {}", hex(&f))),
+                    q @ TxFrame::Query { .. } => {
+                        nq += 1;
+                        self.on_query(ts, q, out);
+                    }
+                }
+            }
+            round += 1;
+            if round > 16 {
+                self.dead = true;
+                self.fail(out, "termination/egress-never-quiesces", format!("17 consecutive polls at the same instant all emitted frames ({})", ctx));
+                return None;
+            }
+        }
+        let now = Instant::from_micros(self.now);
+        let (iface, sockets) = (&mut self.iface, &self.sockets);
+        match catch_unwind(AssertUnwindSafe(|| iface.poll_at(now, sockets))) {
+            Ok(p) => self.next_poll = p.map(|i| i.total_micros()),
+            Err(e) => {
+                self.dead = true;
+                let m = panic_msg(e);
+                self.fail(out, &format!("panic/{}", panic_site()), format!("panic in poll_at: {} at {}", m, last_panic_loc()));
+                return None;
+            }
+        }
+        Some((nq, nicmp))
+    }
+
+    fn on_query(&mut self, ts: i64, q: TxFrame, out: &mut Vec<Viol>) {
+        let TxFrame::Query { dst, sport, dport, txid, question, qraw, .. } = q else { return };
+        // attribute to a query: known port, else the first query without a port (slot order)
+        let k = match self.qs.iter().position(|m| m.port == sport && !m.wire.is_empty()) {
+            Some(k) => k,
+            None => match self.qs.iter().position(|m| m.wire.is_empty()) {
+                Some(k) => {
+                    self.qs[k].port = sport;
+                    k
+                }
+                None => {
+                    globals().mach.lock().unwrap().push(format!("query from unknown source port {} on the wire", sport));
+                    return;
+                }
+            },
+        };
+        let mdns = self.ci().mdns;
+        let expected_dport = if mdns { 5353 } else { 53 };
+        if dport != expected_dport {
+            self.observe("query_to_unexpected_port", || format!("dport {}", dport));
+        }
+        if question.is_none() {
+            self.observe("malformed_question_emitted_on_wire", || format!("question bytes {}", hex(&qraw)));
+        }
+        let m = &mut self.qs[k];
+        let w = (txid, question);
+        if !m.wire.contains(&w) {
+            m.wire.push(w);
+        }
+        let mut viol: Option<(&str, String)> = None;
+        if m.cur_dst == dst {
+            let gap = ts - m.last_tx;
+            if gap < m.last_gap {
+                viol = Some(("timing/backoff-gap-shrinks", format!("query {}: gap {} us after a gap of {} us to the same server", k, gap, m.last_gap)));
+            }
+            m.last_gap = gap;
+        } else {
+            if !m.cur_dst.is_empty() && ts - m.cur_dst_first < PER_SERVER_S * SEC {
+                viol = Some(("timing/failover-before-10s", format!("query {}: next server first addressed {} us after the previous one", k, ts - m.cur_dst_first)));
+            }
+            m.cur_dst = dst.clone();
+            m.cur_dst_first = ts;
+            m.last_gap = 0;
+        }
+        m.last_tx = ts;
+        m.txlog.push((ts, format!("{}:{}", dst.iter().map(|b| b.to_string()).collect::<Vec<_>>().join("."), dport)));
+        if let Some((s, d)) = viol {
+            self.fail(out, s, d);
+        }
+    }
+
+    /// Does `msg` match query k on the criteria of the statement? Ok(matched question name) or
+    /// Err(cause).
+    fn matches(&self, k: usize, msg: &Msg, view: &Option<RView>) -> Result<Name, &'static str> {
+        let q = &self.qs[k];
+        let from_server = msg.sport == 53 && self.ci().servers.contains(&msg.src);
+        // mDNS: lenient, any address (statement: "or from the mDNS port")
+        if !(from_server || msg.sport == 5353) {
+            return Err("source-not-port-53-of-configured-server-nor-mdns-port");
+        }
+        if msg.dport != q.port {
+            return Err("wrong-destination-port");
+        }
+        let Some(v) = view else { return Err("no-dns-header") };
+        if !q.wire.iter().any(|w| w.0 == v.txid) {
+            return Err("wrong-transaction-id");
+        }
+        if v.questions.is_empty() {
+            return Err("no-question");
+        }
+        let mut name_ok_type_bad = false;
+        for (n, t, c) in &v.questions {
+            let Some(n) = n else { continue };
+            for (_, wq) in &q.wire {
+                let Some((wn, wt)) = wq else { continue };
+                if name_eq(n, wn) {
+                    if *t == *wt && *c == 1 {
+                        return Ok(n.clone());
+                    }
+                    name_ok_type_bad = true;
+                }
+            }
+        }
+        if name_ok_type_bad {
+            Err("question-type-or-class-differs")
+        } else {
+            Err("question-name-never-asked")
+        }
+    }
+
+    fn chain(&self, k: usize, view: &RView) -> BTreeSet<Name> {
+        let q = &self.qs[k];
+        let mut edges: Vec<(Name, Name)> = q.edges.iter().cloned().collect();
+        for r in &view.records {
+            if r.typ == T_CNAME {
+                if let (Some(o), Some(t)) = (&r.owner, &r.cname) {
+                    edges.push((lower(o), lower(t)));
+                }
+            }
+        }
+        let mut c: BTreeSet<Name> = BTreeSet::new();
+        c.insert(lower(&q.orig));
+        loop {
+            let before = c.len();
+            for (a, b) in &edges {
+                if c.contains(a) {
+                    c.insert(b.clone());
+                }
+            }
+            if c.len() == before {
+                break;
+            }
+        }
+        c
+    }
+
+    /// Harvest query results; run the matching oracle on completions.
+    fn check_results(&mut self, msg: Option<&Msg>, out: &mut Vec<Viol>) -> (usize, usize) {
+        let view = msg.and_then(|m| parse_response(&m.payload));
+        let mut n_ok = 0;
+        let mut n_fail = 0;
+        for k in 0..self.qs.len() {
+            if self.qs[k].status != Status::Pending {
+                continue;
+            }
+            let handle = self.qs[k].handle;
+            let sock = self.sockets.get_mut::<dns::Socket>(self.h);
+            let r = match catch_unwind(AssertUnwindSafe(|| sock.get_query_result(handle))) {
+                Ok(r) => r,
+                Err(e) => {
+                    self.dead = true;
+                    let m = panic_msg(e);
+                    self.fail(out, &format!("panic/{}", panic_site()), format!("panic in get_query_result: {}", m));
+                    return (n_ok, n_fail);
+                }
+            };
+            // learn CNAME edges from matching responses while the query is pending
+            let matched = msg.map(|m| self.matches(k, m, &view));
+            match r {
+                Err(GetQueryResultError::Pending) => {
+                    if let (Some(Ok(_)), Some(v)) = (&matched, &view) {
+                        for rr in &v.records {
+                            if rr.typ == T_CNAME {
+                                if let (Some(o), Some(t)) = (&rr.owner, &rr.cname) {
+                                    self.qs[k].edges.insert((lower(o), lower(t)));
+                                }
+                            }
+                        }
+                    }
+                }
+                Err(GetQueryResultError::Failed) => {
+                    n_fail += 1;
+                    self.qs[k].status = Status::Failed;
+                    self.qs[k].edges.clear();
+                    if let (Some(Err(cause)), Some(m)) = (&matched, msg) {
+                        // not constrained by the statement (it speaks of completing with addresses)
+                        let cause = *cause;
+                        self.observe(&format!("query_FAILED_by_non_matching_response/{}", cause), || {
+                            format!("{}:{} -> :{} {}", ipstr(&m.src), m.sport, m.dport, describe_response(&m.payload))
+                        });
+                    }
+                }
+                Ok(addrs) => {
+                    n_ok += 1;
+                    let list: Vec<String> = addrs.iter().map(|a| a.to_string()).collect();
+                    self.qs[k].status = Status::Ok(list.clone());
+                    let ctx = |m: &Msg| {
+                        format!(
+                            "query {} ({} type {}, port {}, wire {:?}) completed with {:?} on response {}:{} -> :{} {} bytes={}",
+                            k,
+                            show(&self.qs[k].orig),
+                            self.qs[k].qtype,
+                            self.qs[k].port,
+                            self.qs[k].wire.iter().map(|w| format!("{:04x}/{}", w.0, w.1.as_ref().map(|q| format!("{} type{}", show(&q.0), q.1)).unwrap_or("<malformed>".into()))).collect::<Vec<_>>(),
+                            list,
+                            ipstr(&m.src),
+                            m.sport,
+                            m.dport,
+                            describe_response(&m.payload),
+                            hex(&m.payload)
+                        )
+                    };
+                    match (msg, matched) {
+                        (None, _) | (_, None) => {
+                            let d = format!("query {} completed with {:?} although no response was delivered in this step", k, list);
+                            self.fail(out, "matching/completed-without-response", d);
+                        }
+                        (Some(m), Some(Err(cause))) => {
+                            let d = ctx(m);
+                            self.fail(out, &format!("matching/{}", cause), d);
+                        }
+                        (Some(m), Some(Ok(qname))) => {
+                            let v = view.as_ref().unwrap();
+                            if !name_eq(&qname, &self.qs[k].orig) {
+                                // lenient reading, see module doc
+                                self.observe("completed_on_question_for_cname_target_after_retransmission(lenient)", || ctx(m));
+                            }
+                            let chain = self.chain(k, v);
+                            let mut bad: Option<&str> = None;
+                            for a in addrs.iter() {
+                                let ab = ip_bytes(a);
+                                let want_t = if ab.len() == 4 { T_A } else { T_AAAA };
+                                if (want_t == T_A) != (self.qs[k].qtype == T_A) {
+                                    self.observe("returned_address_family_differs_from_query_type(not_demanded)", || ctx(m));
+                                }
+                                let mut in_resp = false;
+                                let mut on_chain = false;
+                                for rr in &v.records {
+                                    if rr.typ == want_t && rr.rdata == ab {
+                                        in_resp = true;
+                                        if let Some(o) = &rr.owner {
+                                            if chain.contains(&lower(o)) {
+                                                on_chain = true;
+                                            }
+                                        }
+                                    }
+                                }
+                                if !in_resp {
+                                    bad = Some("address-not-in-the-response");
+                                } else if !on_chain && bad.is_none() {
+                                    bad = Some("address-of-a-name-off-the-cname-chain");
+                                }
+                            }
+                            if let Some(b) = bad {
+                                let d = ctx(m);
+                                self.fail(out, &format!("matching/{}", b), d);
+                            }
+                        }
+                    }
+                    self.qs[k].edges.clear();
+                }
+            }
+        }
+        (n_ok, n_fail)
+    }
+
+    fn any_pending(&self) -> bool {
+        self.qs.iter().any(|q| q.status == Status::Pending)
+    }
+
+    /// State invariants of the termination clause.
+    fn post(&mut self, out: &mut Vec<Viol>) {
+        if self.dead {
+            return;
+        }
+        if self.any_pending() && self.next_poll.is_none() {
+            let d = format!("a query is pending but Interface::poll_at returned None at t={} us", self.now);
+            self.fail(out, "termination/poll_at-none-while-pending", d);
+        }
+        for k in 0..self.qs.len() {
+            if self.qs[k].status == Status::Pending && self.now > self.qs[k].deadline {
+                let d = format!(
+                    "query {} still pending at t={} us, bound {} us (started {} us; polled exactly at poll_at); transmissions {:?}",
+                    k, self.now, self.qs[k].deadline, self.qs[k].started, self.qs[k].txlog
+                );
+                self.fail(out, "termination/pending-beyond-bound", d);
+                self.dead = true;
+            }
+        }
+    }
+
+    fn tick(&mut self, out: &mut Vec<Viol>) -> bool {
+        let Some(p) = self.next_poll else { return false };
+        let before = (self.now, self.statuses());
+        if p > self.now {
+            self.now = p;
+        }
+        let Some((nq, _)) = self.settle(out, "tick") else { return false };
+        self.check_results(None, out);
+        if self.now == before.0 && nq == 0 && self.statuses() == before.1 {
+            let d = format!("poll_at = {} us <= now = {} us but polling changes nothing: the caller spins", p, self.now);
+            self.fail(out, "termination/poll_at-in-the-past-without-progress", d);
+            self.dead = true;
+            return false;
+        }
+        true
+    }
+
+    fn statuses(&self) -> Vec<Status> {
+        self.qs.iter().map(|q| q.status.clone()).collect()
+    }
+
+    fn outcome_label(&self, sock_dbg: &str) -> String {
+        if self.dead {
+            return "dead".into();
+        }
+        self.qs
+            .iter()
+            .map(|q| match &q.status {
+                Status::Ok(_) => "completed".to_string(),
+                Status::Failed => "failed".to_string(),
+                Status::Pending => {
+                    // evidence only: is the socket's current question name still the original?
+                    let orig = format!("name: {:?}", flat(&q.orig));
+                    if sock_dbg.contains(&orig) {
+                        "pending".to_string()
+                    } else {
+                        "pending(name-rewritten)".to_string()
+                    }
+                }
+            })
+            .collect::<Vec<_>>()
+            .join("+")
+    }
+}
+
+fn ipstr(a: &[u8; 4]) -> String {
+    format!("{}.{}.{}.{}", a[0], a[1], a[2], a[3])
+}
+
+/// `ipv4_id` only feeds the Identification field of emitted IPv4 headers
+/// (iface/interface/mod.rs dispatch_ip: `next_ipv4_frag_ident`, used when fragmenting); this
+/// harness never looks at that field and never emits a datagram that needs fragmenting, and it is
+/// bumped by every ICMP port-unreachable answer to a refused response, which would make every
+/// refused response a new state. Stripped from the fingerprint.
+fn strip_ipv4_id(d: &str) -> String {
+    match d.find(" ipv4_id=") {
+        Some(i) => {
+            let rest = &d[i + 9..];
+            let j = rest.find(' ').unwrap_or(rest.len());
+            format!("{}{}", &d[..i], &rest[j..])
+        }
+        None => d.to_string(),
+    }
+}
+
+impl Harness for DnsH {
+    type Cfg = DnsCfg;
+    type Ev = Ev;
+
+    fn new(cfg: &DnsCfg) -> DnsH {
+        let ci = &cfg.0;
+        let mut dev = CountDev { inner: SimDevice::new(Medium::Ip, 1500), calls: 0 };
+        let mut c = Config::new(HardwareAddress::Ip);
+        c.random_seed = 0x19c19 + ci.queries.len() as u64;
+        let mut iface = Interface::new(c, &mut dev, Instant::from_micros(0));
+        iface.update_ip_addrs(|a| {
+            a.push(IpCidr::new(IpAddress::v4(IFACE_IP[0], IFACE_IP[1], IFACE_IP[2], IFACE_IP[3]), 24)).unwrap();
+            a.push(IpCidr::new(IpAddress::v6(0xfd00, 0, 0, 0, 0, 0, 0, 1), 64)).unwrap();
+        });
+        let servers: Vec<IpAddress> = ci.servers.iter().map(|s| IpAddress::v4(s[0], s[1], s[2], s[3])).collect();
+        let slots: Vec<Option<dns::DnsQuery>> = (0..ci.queries.len()).map(|_| None).collect();
+        let sock = dns::Socket::new(&servers, slots);
+        let mut sockets = SocketSet::new(vec![]);
+        let h = sockets.add(sock);
+        let mut qs = vec![];
+        for (i, (name, t)) in ci.queries.iter().enumerate() {
+            let handle = sockets
+                .get_mut::<dns::Socket>(h)
+                .start_query(iface.context(), name, qtype_of(*t))
+                .expect("start_query");
+            // mDNS queries go to the IPv6 group, then the IPv4 group (dns.rs dispatch): 2 "servers"
+            let n_srv = if name.ends_with(".local") { 2 } else { ci.servers.len() } as i64;
+            qs.push(QModel {
+                orig: ci.names[i].q.clone(),
+                qtype: *t,
+                handle,
+                status: Status::Pending,
+                started: 0,
+                deadline: n_srv * (PER_SERVER_S + MAX_BACKOFF_S) * SEC + SLACK_S * SEC,
+                port: 0,
+                wire: vec![],
+                edges: BTreeSet::new(),
+                cur_dst: vec![],
+                cur_dst_first: 0,
+                last_tx: 0,
+                last_gap: 0,
+                txlog: vec![],
+            });
+        }
+        let mut me = DnsH {
+            cfg: cfg.clone(),
+            dev,
+            iface,
+            sockets,
+            h,
+            now: 0,
+            next_poll: None,
+            qs,
+            evs: vec![],
+            key: 0,
+            dead: false,
+            last_class: C_TICK,
+            notes: vec![],
+        };
+        let mut out = vec![];
+        me.settle(&mut out, "initial poll");
+        me.check_results(None, &mut out);
+        me.post(&mut out);
+        for v in out {
+            // violations in the initial state are attached to the first event applied
+            me.notes.push(format!("{} :: {}", v.sig, v.detail));
+        }
+        for (k, q) in me.qs.iter().enumerate() {
+            if q.wire.is_empty() && q.status == Status::Pending {
+                globals().mach.lock().unwrap().push(format!("[{}] query {} was not transmitted by the initial poll", ci.label, k));
+            }
+        }
+        if me.qs.len() == 2 && me.qs[0].port == me.qs[1].port {
+            globals().mach.lock().unwrap().push(format!("[{}] both queries drew the same source port; change the seed", ci.label));
+        }
+        me
+    }
+
+    fn enabled(&self) -> Vec<(Ev, u32)> {
+        if self.dead || !self.any_pending() {
+            return vec![];
+        }
+        let mut v = Vec::with_capacity(600);
+        if self.next_poll.is_some() {
+            v.push((Ev::Tick, 0));
+        }
+        v.push((Ev::RunOut, 1));
+        for (k, q) in self.qs.iter().enumerate() {
+            if q.status == Status::Pending && !q.wire.is_empty() {
+                for s in &self.ci().alphabet[k] {
+                    v.push((Ev::Resp(k as u8, *s), 1));
+                }
+            }
+        }
+        v
+    }
+
+    fn apply(&mut self, ev: &Ev, out: &mut Vec<Viol>) {
+        self.evs.push(*ev);
+        self.key = fp128(&(self.key, ev));
+        {
+            let evs = self.evs.clone();
+            watch::enter(&self.ci().dbg, Box::new(move || evs.iter().map(|e| format!("{:?}", e)).collect()));
+        }
+        for n in std::mem::take(&mut self.notes) {
+            if let Some((s, d)) = n.split_once(" :: ") {
+                out.push(Viol::new(s, d));
+            }
+        }
+        let class = match ev {
+            Ev::Tick => {
+                self.tick(out);
+                C_TICK
+            }
+            Ev::RunOut => {
+                let mut n = 0;
+                while self.any_pending() && !self.dead {
+                    if self.next_poll.is_none() {
+                        break; // reported by post()
+                    }
+                    if !self.tick(out) {
+                        break;
+                    }
+                    self.post(out);
+                    n += 1;
+                    if n > 200 {
+                        let d = format!("200 polls at poll_at did not finish the queries (t={} us)", self.now);
+                        self.fail(out, "termination/pending-beyond-bound", d);
+                        self.dead = true;
+                    }
+                }
+                C_RUNOUT
+            }
+            Ev::Resp(k, spec) => {
+                let m = self.build(*k as usize, spec);
+                let frame = udp4_frame(m.src, IFACE_IP, m.sport, m.dport, &m.payload);
+                self.dev.inner.rx.push_back(frame);
+                let ctx = format!("delivering {:?}: {}", spec, hex(&m.payload));
+                match self.settle(out, &ctx) {
+                    None => C_DEAD,
+                    Some((_, nicmp)) => {
+                        let (n_ok, n_fail) = self.check_results(Some(&m), out);
+                        if n_ok > 0 {
+                            C_RESP_COMPLETED
+                        } else if n_fail > 0 {
+                            C_RESP_FAILED
+                        } else if nicmp > 0 {
+                            C_RESP_NOT_FOR_SOCKET
+                        } else {
+                            C_RESP_NO_VERDICT
+                        }
+                    }
+                }
+            }
+        };
+        self.post(out);
+        self.last_class = if self.dead { C_DEAD } else { class };
+        watch::leave();
+        globals().classes.put(self.key, self.last_class);
+    }
+
+    fn fingerprint(&self) -> u128 {
+        // No frame is ever pending between events: settle() polls until the device rx queue is
+        // empty and a poll emits nothing, and all emitted frames are consumed by the wire model;
+        // so "pending-frame state" is empty by construction.
+        let socks = format!("{:?}", self.sockets);
+        let dig = strip_ipv4_id(&self.iface.verif_digest());
+        let mut model = String::new();
+        for q in &self.qs {
+            use std::fmt::Write;
+            let _ = write!(
+                model,
+                "[{:?} port={} wire={:?} edges={:?} dst={:?} first={} last={} gap={}]",
+                q.status, q.port, q.wire, q.edges, q.cur_dst, q.cur_dst_first, q.last_tx, q.last_gap
+            );
+        }
+        let fp = fp128(&(socks.as_str(), dig.as_str(), self.now, self.next_poll, model.as_str(), self.dead));
+        globals().outcomes.put(fp, self.outcome_label(&socks));
+        fp
+    }
+
+    fn outcome(&self) -> String {
+        self.outcome_label(&format!("{:?}", self.sockets))
+    }
+}
+
+// ---------------------------------------------------------------------------------------
+// run / replay
+// ---------------------------------------------------------------------------------------
+
+fn describe_event(h: &DnsH, ev: &Ev) -> String {
+    match ev {
+        Ev::Tick => format!("Tick -> poll at {:?} us", h.next_poll),
+        Ev::RunOut => "RunOut (tick until all queries are done)".into(),
+        Ev::Resp(k, s) => {
+            let m = h.build(*k as usize, s);
+            format!(
+                "Resp(q{}) {:?}\n       {}:{} -> {}:{}  {}\n       dns={}",
+                k,
+                s,
+                ipstr(&m.src),
+                m.sport,
+                ipstr(&IFACE_IP),
+                m.dport,
+                describe_response(&m.payload),
+                hex(&m.payload)
+            )
+        }
+    }
+}
+
+fn state_line(h: &DnsH) -> String {
+    let qs: Vec<String> = h
+        .qs
+        .iter()
+        .enumerate()
+        .map(|(k, q)| {
+            format!(
+                "q{} {} type{} port={} {:?} wire={:?} tx={:?}",
+                k,
+                show(&q.orig),
+                q.qtype,
+                q.port,
+                q.status,
+                q.wire.iter().map(|w| format!("{:04x}/{}", w.0, w.1.as_ref().map(|x| format!("{} type{}", show(&x.0), x.1)).unwrap_or("<malformed>".into()))).collect::<Vec<_>>(),
+                q.txlog
+            )
+        })
+        .collect();
+    format!("t={} us poll_at={:?} {}", h.now, h.next_poll, qs.join(" | "))
+}
+
+/// Run a list of events given as closures choosing from enabled(); used for evidence samples.
+fn scripted(cfg: &DnsCfg, pick: &[&dyn Fn(&Ev) -> bool]) -> Value {
+    let mut h = DnsH::new(cfg);
+    let mut lines = vec![format!("init: {}", state_line(&h))];
+    let mut viols = vec![];
+    for p in pick {
+        let en = h.enabled();
+        let Some((ev, _)) = en.into_iter().find(|(e, _)| p(e)) else {
+            lines.push("<event not enabled>".into());
+            break;
+        };
+        lines.push(describe_event(&h, &ev));
+        h.apply(&ev, &mut viols);
+        lines.push(format!("  => {}", state_line(&h)));
+    }
+    json!({"config": cfg.0.label, "script": lines, "violations": viols.iter().map(|v| v.sig.clone()).collect::<Vec<_>>()})
+}
+
+pub fn run(tier: Tier) -> i32 {
+    watch::start_monitor(tier.name());
+    let mut rep = Report::new("C19", tier);
+    rep.assumptions.push("Medium::Ip, IPv4 transport for responses (mDNS queries also leave over IPv6 and are observed); one dns::Socket; queries started at t=0; the device never refuses a frame".into());
+    rep.assumptions.push("time advances only to Interface::poll_at (statement: 'polled according to poll_at'); bound = servers x (10 s + 10 s max back-off) + 1 s from dns.rs constants".into());
+    rep.assumptions.push("matching oracle uses its own tolerant DNS parser (dns/msg.rs); lenient readings are listed in coverage.lenient_readings and counted in coverage.observations".into());
+    rep.assumptions.push(format!(
+        "build limits in effect: DNS_MAX_SERVER_COUNT={} DNS_MAX_RESULT_COUNT={} DNS_MAX_NAME_SIZE={} (run under both the default and the small variant)",
+        DNS_MAX_SERVER_COUNT, DNS_MAX_RESULT_COUNT, DNS_MAX_NAME_SIZE
+    ));
+    let cfgs = configs(tier);
+    let depth = cfgs.iter().map(|c| c.1).max().unwrap_or(0);
+    let mut per_cfg = vec![];
+    let mut all_obs: BTreeMap<String, (u64, String)> = BTreeMap::new();
+    for (cfg, d) in &cfgs {
+        let d = *d;
+        let g = globals();
+        g.classes.drain();
+        g.outcomes.drain();
+        g.obs.lock().unwrap().clear();
+        g.obs_sample.lock().unwrap().clear();
+        let lim = Limits { max_states: 3_000_000, max_wall_s: if tier == Tier::Quick { 12.0 } else { 200.0 } };
+        let mut samples = vec![];
+        let t_cfg = std::time::Instant::now();
+        let r = bfs::<DnsH>("dns", cfg, d, &lim, &mut rep.found, &mut samples);
+        if std::env::var("VERIF_VERBOSE").is_ok() {
+            eprintln!("[C19] {} depth {} took {:.1}s", cfg.0.label, d, t_cfg.elapsed().as_secs_f64());
+        }
+        match r {
+            Ok(st) => {
+                rep.absorb(&format!("{:?} depth<={}", cfg, d), &st);
+                let mut classes: BTreeMap<&str, u64> = BTreeMap::new();
+                for c in g.classes.drain() {
+                    *classes.entry(CLASS_NAMES[c as usize]).or_insert(0) += 1;
+                }
+                let n_class: u64 = classes.values().sum();
+                if n_class != st.transitions {
+                    // each BFS transition is a distinct event history, so the two must agree
+                    rep.machinery_errors.push(format!("[{}] class tally {} != transitions {}", cfg.0.label, n_class, st.transitions));
+                }
+                let mut outcomes: BTreeMap<String, u64> = BTreeMap::new();
+                for o in g.outcomes.drain() {
+                    *outcomes.entry(o).or_insert(0) += 1;
+                }
+                let obs: BTreeMap<String, u64> = g.obs.lock().unwrap().iter().map(|(k, v)| (k.clone(), v.len() as u64)).collect();
+                for (k, n) in &obs {
+                    let s = g.obs_sample.lock().unwrap().get(k).map(|x| x.1.clone()).unwrap_or_default();
+                    let e = all_obs.entry(k.clone()).or_insert((0, s));
+                    e.0 += n;
+                }
+                per_cfg.push(json!({
+                    "config": cfg.0.label, "depth": d, "states": st.states, "transitions": st.transitions,
+                    "per_level": st.per_level, "fixpoint_reached(whole reachable space explored)": st.per_level.last() == Some(&0), "exhaustive": st.exhaustive, "cap": st.cap_note,
+                    "alphabet_per_query": cfg.0.alphabet.iter().map(|a| a.len()).collect::<Vec<_>>(),
+                    "alphabet_groups_query0": cfg.0.groups,
+                    "transition_classes": classes, "state_outcomes": outcomes, "observations": obs,
+                }));
+                if cfg.0.label.starts_with("1q-A/") || cfg.0.label.starts_with("2q-A+A/") {
+                    rep.samples.extend(samples);
+                }
+            }
+            Err(e) => rep.machinery_errors.push(format!("[{}] {}", cfg.0.label, e)),
+        }
+    }
+    // enrich bfs artefacts with the response bytes of each step
+    for f in rep.found.iter_mut() {
+        if let Some((cfg, _)) = cfgs.iter().find(|c| Some(format!("{:?}", c.0).as_str()) == f.replay["config"].as_str()) {
+            let choices: Vec<u16> = f.replay["choices"].as_array().map(|a| a.iter().map(|x| x.as_u64().unwrap_or(0) as u16).collect()).unwrap_or_default();
+            f.replay["steps"] = json!(narrate(cfg, &choices).0);
+        }
+    }
+    for e in globals().mach.lock().unwrap().drain(..) {
+        if !rep.machinery_errors.contains(&e) && rep.machinery_errors.len() < 20 {
+            rep.machinery_errors.push(e);
+        }
+    }
+    rep.cov("per_config", json!(per_cfg));
+    rep.cov("observations", json!(all_obs.iter().map(|(k, (n, s))| json!({"what": k, "distinct_transitions": n, "first_sample": s})).collect::<Vec<_>>()));
+    rep.cov("lenient_readings", json!([
+        "responses from source port 5353 are accepted from ANY address (statement: 'or from the mDNS port'; dns::Socket::accepts matches mDNS by port only)",
+        "a response whose question repeats a (name,type) that THIS query put on the wire in any (re)transmission counts as repeating its question - smoltcp re-asks with the CNAME target after a CNAME in a response it then rejected; only a question never on the wire is reported",
+        "CNAME chain = closure over CNAME records of the accepted response and of earlier matching responses, any order",
+        "record family need not equal the query type (AAAA record answers an A query): counted only",
+        "failure verdicts (NXDOMAIN before the question check, empty answers) are not constrained by the statement: counted only",
+        "names compare case-insensitively in the oracle"
+    ]));
+    rep.cov("rule", json!(format!(
+        "BFS over event histories (depth <= {}, per configuration see per_config), state merged on fingerprint = SocketSet Debug + Interface::verif_digest (minus ipv4_id) + time + poll_at + oracle model; from every state: Tick, RunOut, and for every pending query every response of its alphabet built from the query seen on the wire; RunOut decides bounded termination from EVERY reached state; distinct = distinct fingerprints; transition classes say how many deliveries were refused / processed / completed / failed",
+        depth
+    )));
+    // evidence samples: timeline without answers, the CNAME-rewrite scenario, a good answer
+    if let Some((c, _)) = cfgs.first() {
+        rep.samples.push(json!({"what": "no answers: retransmission/fail-over timeline", "run": scripted(c, &[&|e| *e == Ev::RunOut])}));
+        let base = base_spec(&c.0);
+        let cut_after_cname = {
+            // cut inside the second record of [Q->T, T A]: the CNAME has been processed, then parsing fails
+            let full = build_payload(&c.0.names[0], T_A, &RSpec { ans: Ans::Cname1In, ..base }, 0, DNS_MAX_RESULT_COUNT).len() as u16;
+            full - 1
+        };
+        let r1 = RSpec { ans: Ans::Cname1In, cut: Some(cut_after_cname), ..base };
+        let r2 = RSpec { q: QSec::Name(Nm::T), ans: Ans::AFor(Nm::T), ..base };
+        let good = RSpec { ans: Ans::Cname2In, ..base };
+        rep.samples.push(json!({"what": "good CNAME chain answer", "run": scripted(c, &[&move |e| *e == Ev::Resp(0, good)])}));
+        rep.samples.push(json!({"what": "CNAME then truncated record, then a response whose question is the CNAME target",
+            "run": scripted(c, &[&move |e| *e == Ev::Resp(0, r1), &move |e| *e == Ev::Resp(0, r2)])}));
+    }
+    rep.finish()
+}
+
+/// Replay choices with a full narrative; returns (lines, violations).
+fn narrate(cfg: &DnsCfg, choices: &[u16]) -> (Vec<String>, Vec<Viol>) {
+    let mut lines = vec![];
+    let mut viols = vec![];
+    let mut h = DnsH::new(cfg);
+    lines.push(format!("init: {}", state_line(&h)));
+    for (i, &c) in choices.iter().enumerate() {
+        let en = h.enabled();
+        if c as usize >= en.len() {
+            lines.push(format!("step {}: choice {} out of range ({} enabled)", i, c, en.len()));
+            break;
+        }
+        let ev = en[c as usize].0;
+        lines.push(format!("step {}: {}", i, describe_event(&h, &ev)));
+        let r = catch_unwind(AssertUnwindSafe(|| h.apply(&ev, &mut viols)));
+        if r.is_err() {
+            lines.push("  => harness panicked".into());
+            viols.push(Viol::new("C19/panic/harness", "panic outside the captured calls"));
+            break;
+        }
+        lines.push(format!("  => {}", state_line(&h)));
+    }
+    (lines, viols)
+}
+
+pub fn replay(art: &Value) -> i32 {
+    watch::start_monitor("replay");
+    let want = art["replay"]["config"].as_str().unwrap_or("");
+    let mut all = configs(Tier::Quick);
+    all.extend(configs(Tier::Thorough));
+    let Some(cfg) = all.into_iter().map(|c| c.0).find(|c| format!("{:?}", c) == want) else {
+        eprintln!("MACHINERY ERROR: configuration {:?} does not exist in this build (limits in effect: servers {}, results {}) - replay under the build variant that produced the artefact", want, DNS_MAX_SERVER_COUNT, DNS_MAX_RESULT_COUNT);
+        return 2;
+    };
+    let choices: Vec<u16> = match art["replay"]["choices"].as_array() {
+        Some(a) => a.iter().map(|x| x.as_u64().unwrap_or(0) as u16).collect(),
+        None => {
+            // hang artefacts carry only the event strings: map them back to choices
+            let evs: Vec<String> = art["replay"]["events"].as_array().map(|a| a.iter().filter_map(|x| x.as_str().map(String::from)).collect()).unwrap_or_default();
+            let mut h = DnsH::new(&cfg);
+            let mut ch = vec![];
+            for e in &evs {
+                let en = h.enabled();
+                match en.iter().position(|(x, _)| format!("{:?}", x) == *e) {
+                    Some(i) => {
+                        ch.push(i as u16);
+                        println!("applying {}", e);
+                        let mut v = vec![];
+                        h.apply(&en[i].0, &mut v); // the watchdog ends the process if this hangs
+                    }
+                    None => {
+                        eprintln!("MACHINERY ERROR: event {} not enabled", e);
+                        return 2;
+                    }
+                }
+            }
+            ch
+        }
+    };
+    let (lines, viols) = narrate(&cfg, &choices);
+    for l in lines {
+        println!("{}", l);
+    }
+    let sig = art["signature"].as_str().unwrap_or("");
+    if viols.is_empty() {
+        println!("no violation on replay");
+        return 0;
+    }
+    for v in &viols {
+        println!("violation: {} :: {}", v.sig, v.detail);
+    }
+    if viols.iter().any(|v| v.sig == sig) || sig.is_empty() {
+        1
+    } else {
+        println!("(the recorded signature {} did not recur, others did)", sig);
+        1
+    }
 }
